@@ -48,3 +48,7 @@ Proof. vm_compute. reflexivity. Qed.
 (* the transcribed bodies are the ones that were read *)
 Lemma ob_pinned : pinned = pinned_expected.
 Proof. vm_compute. reflexivity. Qed.
+
+(* NewProxyResolver evaluates the helper library before the script *)
+Lemma ob_library_before_script : library_before_script = true.
+Proof. vm_compute. reflexivity. Qed.
